@@ -71,7 +71,7 @@ type shEnum struct {
 	Name   string `json:"name"`
 	Parent int    `json:"parent"`
 	Unspec bool   `json:"unspec"`
-	Opt    string `json:"opt"` // none | no_default | info_fields | value_info | value_prefixed
+	Opt    string `json:"opt"` // none | no_default | info_fields | value_info | value_prefixed | negative_value
 }
 
 type shCase struct {
@@ -702,8 +702,12 @@ func shBuild(c *shCase) (*shBuilt, error) {
 			vals = append(vals, prefix+prefix+"X")
 		}
 		for n, v := range vals {
-			vp := &descriptorpb.EnumValueDescriptorProto{Name: proto.String(v), Number: proto.Int32(int32(n))}
-			line := fmt.Sprintf("%s = %d;", v, n)
+			num := n
+			if e.Opt == "negative_value" && n == 1 {
+				num = -1
+			}
+			vp := &descriptorpb.EnumValueDescriptorProto{Name: proto.String(v), Number: proto.Int32(int32(num))}
+			line := fmt.Sprintf("%s = %d;", v, num)
 			if e.Opt == "value_info" && n == 1 {
 				vo := &descriptorpb.EnumValueOptions{}
 				m := &ext_j5pb.EnumValueOptions{}
